@@ -179,6 +179,9 @@ impl FrameStack {
     pub fn push(&mut self, f: crate::x_vm::StackFrame) {
         self.top.push(f)
     }
+    pub fn pop(&mut self) -> Option<crate::x_vm::StackFrame> {
+        self.top.pop()
+    }
 }
 
 pub struct SteelThread {
@@ -202,7 +205,33 @@ impl<'a> VmCore<'a> {
     pub fn current_span(&self) -> Span {
         Span
     }
+    /// GHOST callee for host-initiated calls: records what it was entered with, leaves some
+    /// temporaries behind (as an erroring evaluation does), pops its own frame (as the unwinding
+    /// loop of the real function does) and returns a value or an error
+    pub fn call_with_instructions_and_reset_state(&mut self, closure: RootedInstructions) -> Result<SteelVal> {
+        unsafe {
+            CALLEE_ENTERED += 1;
+            CALLEE_STACK_LEN = self.thread.stack.len();
+            CALLEE_SP = self.sp;
+            let mut i = 0;
+            while i < CALLEE_LEAVES {
+                self.thread.stack.push(SteelVal::Void);
+                i += 1;
+            }
+            let _ = self.thread.stack_frames.top.pop();
+            if CALLEE_FAILS {
+                Err(SteelErr { kind: ErrorKind::Generic })
+            } else {
+                Ok(SteelVal::IntV(7))
+            }
+        }
+    }
 }
+pub static mut CALLEE_ENTERED: u32 = 0;
+pub static mut CALLEE_STACK_LEN: usize = 0;
+pub static mut CALLEE_SP: usize = 0;
+pub static mut CALLEE_LEAVES: usize = 0;
+pub static mut CALLEE_FAILS: bool = false;
 
 /// slow path used by the SUBIMMEDIATE arm for non-fixnum operands: covered by unit `num`;
 /// here it only reports that it was asked
